@@ -1819,3 +1819,50 @@ package moss
 //@   modifies iter.cursors
 //@   ensures @shrunk len(iter.cursors) == old(len(iter.cursors)) - 1 && arr(iter.cursors) == old(arr(iter.cursors)) && off(iter.cursors) == old(off(iter.cursors))
 //@   ensures @last typeIs(result, "*cursor") && ptrOf(result, "*cursor") == old(curAt(iter, len(iter.cursors) - 1))
+
+// ---- heap iterator: stepping (C09, C01) -------------------------------------------------------------------------------
+// Every cursor in the heap that reads a segment mirrors the entry under its
+// segment cursor and is not exhausted (an exhausted source is popped, a
+// stepped one is refreshed before the heap is repaired).  container/heap is
+// trusted to permute the cursors (Pop: to remove the one on top).  Next()
+// PRESERVES this; that startIterator establishes it is not proved (the
+// attempt timed out on the append of the fresh cursor), so the precondition
+// of Next is an assumption at its call sites.
+//@ pure func scOf(c *cursor) *segmentCursor = ptrOf(c.sc, "*segmentCursor")
+//@ pure func mirrorC(c *cursor) bool = c != nil && (c.sc == nil ==> c.ssIndex < 0) &&
+//@     (c.sc != nil ==> typeIs(c.sc, "*segmentCursor") && scOf(c) != nil && cursorOK(scOf(c)) && scOf(c).curr < scOf(c).end &&
+//@         c.op == kop(scOf(c).s, scOf(c).curr) && c.k == keyAt(scOf(c).s, scOf(c).curr) && c.v == valAt(scOf(c).s, scOf(c).curr))
+//@ pure func iterMirror(it *iterator) bool = it != nil && (forall i int :: 0 <= i && i < len(it.cursors) ==> mirrorC(curAt(it, i)))
+//@ pure func distinctCur(it *iterator) bool = forall i int, j int :: 0 <= i && i < j && j < len(it.cursors) ==> curAt(it, i) != curAt(it, j)
+
+//@ func container/heap.Fix
+//@   trusted container/heap restores the heap order by swapping elements: the cursors are permuted, no cursor is touched
+//@   modifies elems(ptrOf(h, "*iterator").cursors)
+//@   ensures @perm forall p int :: 0 <= p && p < len(ptrOf(h, "*iterator").cursors) ==>
+//@       (exists q int :: 0 <= q && q < len(ptrOf(h, "*iterator").cursors) && curAt(ptrOf(h, "*iterator"), p) == old(curAt(ptrOf(h, "*iterator"), q)))
+//@   ensures @distinct old(distinctCur(ptrOf(h, "*iterator"))) ==> distinctCur(ptrOf(h, "*iterator"))
+//@ func container/heap.Pop
+//@   trusted container/heap removes the element on top and restores the heap order: the remaining cursors are a permutation of the others
+//@   modifies ptrOf(h, "*iterator").cursors, elems(ptrOf(h, "*iterator").cursors)
+//@   ensures @shrunk len(ptrOf(h, "*iterator").cursors) == old(len(ptrOf(h, "*iterator").cursors)) - 1
+//@   ensures @perm forall p int :: 0 <= p && p < len(ptrOf(h, "*iterator").cursors) ==>
+//@       (exists q int :: 1 <= q && q < old(len(ptrOf(h, "*iterator").cursors)) && curAt(ptrOf(h, "*iterator"), p) == old(curAt(ptrOf(h, "*iterator"), q)))
+//@   ensures @distinct old(distinctCur(ptrOf(h, "*iterator"))) ==> distinctCur(ptrOf(h, "*iterator"))
+//@ func Iterator.Next
+//@   ensures true
+//@ func Iterator.Current
+//@   ensures true
+//@ func Iterator.Close
+//@   ensures true
+
+//@ func (iter *iterator) Next() error
+//@   attr obligations ensures inv-entry inv-preserve
+//@   props C09 C01 C10
+//@   dead return err
+//@   dead }  return ErrIteratorDone
+//@   requires @stepOK iterMirror(iter) && distinctCur(iter) && (forall a *cursor, b *cursor :: a != b && a.sc != nil ==> a.sc != b.sc)
+//@   modifies *
+//@   ensures @mirror iterMirror(iter) && distinctCur(iter)
+//@   loop 1: invariant iter != nil && iterMirror(iter) && distinctCur(iter) && (forall a *cursor, b *cursor :: a != b && a.sc != nil ==> a.sc != b.sc)
+//@ func iteratorBytesEqual$loops
+//@   loop 1: invariant 0 <= i && i <= len(a)
